@@ -113,7 +113,13 @@ def apply(lib, op, U):
             lib.add(bs[0] if op.get("single") else bs, fail_on_duplicate_key=op["fail"])
         elif o == "remove":
             xs = [arg_obj(a, lib, U) for a in op["as"]]
-            lib.remove(xs[0] if op.get("single") else xs)
+            if op.get("own_list"):
+                # "remove everything": the argument is the very list object the library hands out as .blocks
+                if [id(x) for x in xs] != [id(b) for b in lib.blocks]:
+                    raise core.MachineryError("own_list removal recorded for other blocks than the held ones")
+                lib.remove(lib.blocks)
+            else:
+                lib.remove(xs[0] if op.get("single") else xs)
         elif o == "replace":
             new = U[op["new"]] if isinstance(op["new"], str) else U[op["new"]["id"]]
             lib.replace(arg_obj(op["old"], lib, U), new, fail_on_duplicate_key=op["fail"])
@@ -289,6 +295,8 @@ def history(bib, rnd, depth, cid):
                   "single": n == 1 and rnd.random() < 0.7, "fail": rnd.random() < 0.3}
             if rnd.random() < 0.15:
                 op.update(single=False, fail=False, gen=True)
+        elif kind == "remove" and held and not wpos and len(held) == len(lib.blocks) and rnd.random() < 0.2:
+            op = {"op": "remove", "as": [dict(rec[h]) for h in held], "single": False, "own_list": True}
         elif kind == "remove":
             n = rnd.choice([1, 1, 1, 2])
             if n == 1:
